@@ -484,6 +484,84 @@ pub fn check(case: &Case, w: usize) -> CheckResult {
         .inv(env.invocations))
 }
 
+/// Contenders that are descendants of the holder: a command executable of a lock-holding `run`
+/// starts the four APIs itself (a CI step that ends with `monorail checkpoint update`, say).
+#[derive(Debug, Clone, Serialize, Deserialize)]
+pub struct NestedCase {
+    /// order in which the four APIs are tried
+    pub order: Vec<u8>,
+    pub host: u8,
+}
+
+pub fn nested_strategy() -> impl Strategy<Value = NestedCase> {
+    (Just(vec![0u8, 1, 2, 3]).prop_shuffle(), 0u8..3).prop_map(|(order, host)| NestedCase { order, host })
+}
+
+pub fn check_nested(case: &NestedCase, w: usize) -> CheckResult {
+    let mut cfg = ConfigSpec {
+        targets: vec![TargetSpec::new("t0"), TargetSpec::new("t1")],
+        ..Default::default()
+    };
+    cfg.lock_host = match case.host {
+        1 => Some("localhost".into()),
+        2 => Some("127.0.0.1".into()),
+        _ => None,
+    };
+    let mut env = Env::new(w);
+    env.install_config(&cfg);
+    let apis: [Vec<String>; 4] = [
+        vec!["checkpoint".into(), "update".into()],
+        vec!["checkpoint".into(), "delete".into()],
+        vec!["out".into(), "delete".into(), "--all".into()],
+        vec!["run".into(), "-c".into(), "c0".into(), "-t".into(), "t1".into()],
+    ];
+    let nested: Vec<Vec<String>> = case.order.iter().map(|&k| apis[k as usize % 4].clone()).collect();
+    let mut beh = BTreeMap::new();
+    beh.insert(("c0".to_string(), "t0".to_string()), Behavior { nested: nested.clone(), ..Default::default() });
+    beh.insert(("c0".to_string(), "t1".to_string()), Behavior::default());
+    bb::install_simple(&env, &cfg, &beh);
+    if let Err(e) = bb::commit_all_and_checkpoint(&mut env) {
+        return inconclusive(e);
+    }
+    let before = env.mr(&["checkpoint", "show"]);
+    let holder = env.mr(&["run", "-c", "c0", "-t", "t0"]);
+    if !holder.ok() {
+        return inconclusive(format!("the holder run did not succeed: {}", holder.brief()));
+    }
+    let mut seen = 0;
+    if let Ok(rd) = std::fs::read_dir(&env.trace) {
+        for e in rd.flatten() {
+            let name = e.file_name().to_string_lossy().to_string();
+            if !name.starts_with("nested-") {
+                continue;
+            }
+            let Ok(v) = serde_json::from_slice::<Value>(&std::fs::read(e.path()).unwrap_or_default()) else { continue };
+            seen += 1;
+            let code = v.get("code").and_then(|c| c.as_i64());
+            let stderr = v.get("stderr").and_then(|s| s.as_str()).unwrap_or("");
+            if code == Some(0) || !stderr.contains("Lock") {
+                return viol_obs(
+                    "c14.nested.not-refused",
+                    format!("an invocation started by a command of the lock-holding run was not refused with a lock error: {}", v.get("args").map(|a| a.to_string()).unwrap_or_default()),
+                    v.clone(),
+                );
+            }
+        }
+    }
+    if seen != nested.len() {
+        return inconclusive(format!("{} of {} nested invocations were recorded", seen, nested.len()));
+    }
+    let started_t1 = env.traces().iter().any(|t| bb::trace_key(&env, t).1 == "t1");
+    if started_t1 {
+        return viol("c14.nested.started", "a nested `run` started an executable while its ancestor held the lock".into());
+    }
+    let after = env.mr(&["checkpoint", "show"]);
+    if before.json().map(|v| bb::strip_timestamp(&v)) != after.json().map(|v| bb::strip_timestamp(&v)) || before.code != after.code {
+        return viol_obs("c14.nested.checkpoint", "the checkpoint changed although every nested invocation should have been refused".into(), after.brief());
+    }
+    Ok(CaseInfo::new(true).class("contenders-are-children-of-the-holder").inv(env.invocations))
+}
+
 pub fn run(ctx: &mut Ctx) {
     ctx.hang_limit = Duration::from_secs(400);
     ctx.shrink_budget = Duration::from_secs(30);
@@ -492,7 +570,7 @@ phase B: a holder kept inside its critical section (a `run` whose helper blocks 
 0-2 late contenders started 110-400 ms before the holder ends, holder termination by normal exit, failing run or SIGKILL, then one more invocation. oracle: (i) from the point log, [lock.acquired, lock.release] intervals of different processes never overlap (a killed \
 holder's interval ends at a time stamp taken before the kill); (ii) a process that never acquired, and every contender that ran while the holder was provably inside, ends non-zero with a lock error, \
 starts no executable (own trace directory), and the out directory is byte-identical before/after the contenders; (iii) after the holder ended the next invocation does not get a lock error; (iv) a process whose bind attempt (lock.attempt) fell inside another process's holding interval, with 100 ms to spare before the release, never acquires. \
-non-trivial = at least one contender overlapped the holder; distinct by SHA-256"
+phase C: the four APIs started, in a generated order, by a command executable of the lock-holding run itself (same environment): each must be refused with a lock error, start nothing and leave the checkpoint alone. non-trivial = at least one contender overlapped the holder; distinct by SHA-256"
         .to_string();
     ctx.assumptions = vec![
         "lock.release is logged before the guard is dropped, so a correct lock cannot produce an overlap".into(),
@@ -500,9 +578,17 @@ non-trivial = at least one contender overlapped the holder; distinct by SHA-256"
     ];
     let n = ctx.n(120, 2500);
     ctx.drive("scenario", strategy, n, check);
+    let n2 = ctx.n(12, 200);
+    ctx.drive("nested", nested_strategy, n2, check_nested);
 }
 
 pub fn replay(ctx: &Ctx, label: &str, case: Value) -> Result<(), String> {
+    if label.contains("nested") {
+        let c: NestedCase = serde_json::from_value(case).map_err(|e| e.to_string())?;
+        let r = check_nested(&c, 0);
+        ctx.replay_one(label, &c, r);
+        return Ok(());
+    }
     let c: Case = serde_json::from_value(case).map_err(|e| e.to_string())?;
     let r = check(&c, 0);
     ctx.replay_one(label, &c, r);
